@@ -60,7 +60,7 @@ def response(rng, kind):
     elif kind == "proto10":
         proto = "HTTP/1.0"
     elif kind == "wrongaccept":
-        hdrs[2] = ("Sec-WebSocket-Accept", rng.choice(["AAAAAAAAAAAAAAAAAAAAAAAAAAA=", "@A@x", "x@A@", ""]))
+        hdrs[2] = ("Sec-WebSocket-Accept", rng.choice(["AAAAAAAAAAAAAAAAAAAAAAAAAAA=", "@A@x", "x@A@", "", "@S@", "@S@"]))
         want = 1
     elif kind == "noaccept":
         hdrs.pop(2)
@@ -117,7 +117,8 @@ def cases_for(rng, q):
             resp, want = response(rng, kind)
             frames = b"".join(frame(rng.choice([1, 2]), bytes(rng.randrange(256) for _ in range(rng.choice([0, 1, 5, 125, 126, 300]))))
                               for _ in range(rng.choice([0, 0, 1, 3])))
-            n = len(resp) - 3 * resp.count(b"@A@") + 28 * resp.count(b"@A@") + len(frames)
+            nph = resp.count(b"@A@") + resp.count(b"@S@")
+            n = len(resp) - 3 * nph + 28 * nph + len(frames)
             k = rng.choice([0, 0, 1, 2, 3])
             cuts = sorted(rng.sample(range(1, max(2, n)), min(k, max(0, n - 1))))
             close_at = rng.randrange(n) if rng.random() < 0.15 else -1
@@ -131,6 +132,10 @@ def cases_for(rng, q):
         body = "HTTP/1.1 101 X\r\nUpgrade: websocket\r\n" + pad * (size // len(pad)) + "Sec-WebSocket-Accept: @A@\r\n\r\n"
         cases.append(("case", ["hs sync %s %s -1 %s 0" % (hx(body), rng.choice(["-", "700", "1024,1030"]), hx(frame(2, b"abc"))), "read", "read",
                                "hs async %s - -1 - 0" % hx(short), "read"]))
+    # the accept value with the case of its letters swapped: base64 is case sensitive, the response must be refused
+    swapped = b"HTTP/1.1 101 X\r\nUpgrade: websocket\r\nSec-WebSocket-Accept: @S@\r\n\r\n"
+    for mode in ("sync", "async"):
+        cases.append(("case", ["hs %s %s - -1 %s 0" % (mode, hx(swapped), hx(fr)), "read", "hs %s %s - -1 %s 0" % (mode, hx(short), hx(fr)), "read"]))
     # more frame bytes behind the head than the decoder's buffer has room for without growing (4096): after a handshake whose long
     # head made the handshake buffer grow (the capacity is kept), and behind a head above 8 KiB in one segment
     many = b"".join(frame(1, bytes([65 + (i % 26)]) * 100) for i in range(60))
